@@ -5,9 +5,75 @@
 // compiled, with the tag on it adds no code.
 package common
 
+//@ import "io"
+
 //@ func AddRecordLayer
 //@   ensures len: len(ret0) == len(input) + 5
 //@   ensures hdr: ret0[0] == typ && ret0[1] == byte(ver >> 8) && ret0[2] == byte(ver)
 //@   ensures lenfield: len(input) < 65536 ==> int(ret0[3])*256 + int(ret0[4]) == len(input)
 //@   ensures body: forall i int :: 0 <= i && i < len(input) ==> ret0[5+i] == input[i]
 //@   ensures fresh: fresh(ret0)
+
+// ---- TLS record framing (C05, C10) ----
+// Ghost model of a net.Conn c (assumed library contract, see /verif/govc/models.go):
+//   inbyte(c,i) / inpos(c)   the bytes the peer sends and how many have been consumed
+//   outbyte(c,i) / outlen(c) the bytes written so far; outwrites(c) counts Write calls
+//@ ghost func recLen(c any, at int) int { return int(inbyte(c, at+3))*256 + int(inbyte(c, at+4)) }
+
+//@ poolinv TLSConn.writeBufPool: typeIs[*[]byte](x) && x.(*[]byte) != nil && len(*(x.(*[]byte))) == 3 && (*(x.(*[]byte)))[0] == 23 && (*(x.(*[]byte)))[1] == 3 && (*(x.(*[]byte)))[2] == 3
+
+//@ func NewTLSConn$1
+//@   ensures typeIs[*[]byte](ret0) && ret0.(*[]byte) != nil && len(*(ret0.(*[]byte))) == 3 && (*(ret0.(*[]byte)))[0] == 23 && (*(ret0.(*[]byte)))[1] == 3 && (*(ret0.(*[]byte)))[2] == 3
+
+//@ func (*TLSConn).Read
+//@   ensures short: len(buffer) < 5 ==> err == io.ErrShortBuffer && n == 0 && inpos(tls.Conn) == old(inpos(tls.Conn))
+//@   ensures whole: err == nil ==> n == recLen(tls.Conn, old(inpos(tls.Conn))) && n <= len(buffer) && inpos(tls.Conn) == old(inpos(tls.Conn)) + 5 + n
+//@   ensures body: err == nil ==> (forall i int :: 0 <= i && i < n ==> buffer[i] == inbyte(tls.Conn, old(inpos(tls.Conn)) + 5 + i))
+//@   ensures neverTruncated: len(buffer) >= 5 && inpos(tls.Conn) >= old(inpos(tls.Conn)) + 5 && recLen(tls.Conn, old(inpos(tls.Conn))) > len(buffer) ==> err == io.ErrShortBuffer
+//@   ensures consumed: inpos(tls.Conn) >= old(inpos(tls.Conn)) && 0 <= n && n <= len(buffer)
+//@   modifies elems(buffer), connin(tls.Conn)
+
+//@ func (*TLSConn).Write
+//@   ensures tooLong: len(in) > 16640 ==> err != nil && n == 0 && outlen(tls.Conn) == old(outlen(tls.Conn)) && outwrites(tls.Conn) == old(outwrites(tls.Conn))
+//@   ensures oneWrite: len(in) <= 16640 ==> outwrites(tls.Conn) == old(outwrites(tls.Conn)) + 1
+//@   ensures count: len(in) <= 16640 && err == nil ==> outlen(tls.Conn) == old(outlen(tls.Conn)) + 5 + len(in) && n == len(in)
+//@   ensures hdrType: len(in) <= 16640 && err == nil ==> outbyte(tls.Conn, old(outlen(tls.Conn))) == 23 && outbyte(tls.Conn, old(outlen(tls.Conn))+1) == 3 && outbyte(tls.Conn, old(outlen(tls.Conn))+2) == 3
+//@   ensures hdrLen: len(in) <= 16640 && err == nil ==> int(outbyte(tls.Conn, old(outlen(tls.Conn))+3))*256 + int(outbyte(tls.Conn, old(outlen(tls.Conn))+4)) == len(in)
+//@   ensures body: len(in) <= 16640 && err == nil ==> (forall i int :: 0 <= i && i < len(in) ==> outbyte(tls.Conn, old(outlen(tls.Conn)) + 5 + i) == old(in[i]))
+//@   ensures prefixKept: forall i int :: 0 <= i && i < old(outlen(tls.Conn)) ==> outbyte(tls.Conn, i) == old(outbyte(tls.Conn, i))
+//@   modifies connout(tls.Conn)
+
+// Lemma (C05): a message handed to one Write is returned whole by exactly one Read on the peer,
+// whatever the segmentation: no contract above mentions segment boundaries, only stream positions.
+//@ ghost func delivered(w *TLSConn, r *TLSConn, o0 int, p0 int, n int) bool {
+//@     return forall j int :: p0 <= j && j < p0+n ==> inbyte(r.Conn, j) == outbyte(w.Conn, o0+(j-p0))
+//@ }
+//@ ghost func olen(t *TLSConn) int { return outlen(t.Conn) }
+//@ ghost func ipos(t *TLSConn) int { return inpos(t.Conn) }
+//@ ghost func sameBytes(a []byte, b []byte, n int) bool { return forall i int :: 0 <= i && i < n ==> a[i] == b[i] }
+//@ ghost func advanced(r *TLSConn, p0 int, n int) bool { return inpos(r.Conn) == p0 + 5 + n }
+//@ ghost func apart(a []byte, b []byte) bool { return disjoint(a, b) }
+//@ lemma func recordRoundTrip(w *TLSConn, r *TLSConn, msg []byte, buf []byte) {
+//@     if w == nil || r == nil { return }
+//@     assume(apart(msg, buf))
+//@     o0 := olen(w)
+//@     p0 := ipos(r)
+//@     _, err := w.Write(msg)
+//@     if err != nil { return }
+//@     assume(delivered(w, r, o0, p0, 5+len(msg)))
+//@     k, err2 := r.Read(buf)
+//@     if err2 != nil { return }
+//@     assert(k == len(msg) && sameBytes(buf, msg, k))
+//@     assert(advanced(r, p0, len(msg)))
+//@ }
+
+// crypto/rand.Int based helper: assumed (trusted) contract, not verified (math/big and the
+// retry loop are outside the verifier). rand.Int panics for n <= 0, hence the precondition.
+//@ func RandInt
+//@   flag trusted
+//@   requires positive: n > 0
+//@   ensures 0 <= ret0 && ret0 < n
+
+//@ func CryptoRandRead
+//@   flag trusted
+//@   modifies elems(buf)
